@@ -334,3 +334,16 @@ def byte_parts(e, depth=0):
                 added.extend(byte_parts(x, depth + 1))
         return prev + added
     return [e]
+
+
+def fold_enum(P, e, depth=0):
+    """replace `discr(Enum::Variant)` (a field-less enum value built on the path, read through `as uN`) by the variant's declared discriminant"""
+    if not isinstance(e, tuple) or depth > 60:
+        return e
+    if e and e[0] == 'discr' and isinstance(e[1], tuple):
+        x = strip(e[1])
+        if x[0] == 'agg' and x[1] in P.adts and not x[3]:
+            for v in P.adts[x[1]]['variants']:
+                if v['name'] == x[2] and v.get('discr') is not None:
+                    return ('const', v['discr'], str(v['discr']))
+    return tuple(fold_enum(P, x, depth + 1) if isinstance(x, tuple) else x for x in e)
